@@ -370,6 +370,10 @@ type TaskEntropy struct {
 	// started on behalf of the same API call, or its parent) could run: the order of the draws is then
 	// a scheduling accident and bit-for-bit comparison with a solo execution is not defined
 	ambiguous bool
+	// stallAt / stallFor: the stallAt-th Read (counted over all streams) takes stallFor of real time
+	stallAt  int
+	stallFor time.Duration
+	nReads   int
 }
 
 // Ambiguous: see the field.
@@ -450,6 +454,10 @@ func (e *TaskEntropy) Read(p []byte) (int, error) {
 			}
 			id = verifsim.RootOf(id)
 		}
+	}
+	e.nReads++
+	if e.stallAt > 0 && e.nReads == e.stallAt {
+		time.Sleep(e.stallFor)
 	}
 	n := len(p)
 	if e.short && n > 1 {
